@@ -262,13 +262,10 @@ func (c *rawScn) step(st string) {
 		hdr, body, ok, to, skip, h := c.mkSend(arg(1))
 		sock := c.sock
 		s.Call(s.Thread(), "send", "s", []interface{}{"tag", rawTag(body), "ok", ok, "to", to, "skip", skip, "h", h}, func() []interface{} {
-			m := mangos.NewMessage(len(body))
+			m := appNew(s, len(body))
 			m.Header = append(m.Header, hdr...)
 			m.Body = append(m.Body, body...)
-			err := sock.SendMsg(m)
-			if err != nil {
-				m.Free()
-			}
+			err := appSend(s, m, sock.SendMsg)
 			return []interface{}{"r", err}
 		})
 	case "recv":
@@ -278,6 +275,7 @@ func (c *rawScn) step(st string) {
 			if err != nil {
 				return []interface{}{"r", err}
 			}
+			appGot(s, m)
 			tag := rawTag(m.Body)
 			hl := len(m.Header)
 			from := "none"
@@ -288,7 +286,11 @@ func (c *rawScn) step(st string) {
 			if hl == 4 && (c.cfg.P.eng == "xpair1" || c.cfg.P.eng == "xstar") {
 				hout = int(m.Header[3])
 			}
-			m.Free()
+			// the message is the application's: scribble over it before releasing it
+			for k := range m.Body {
+				m.Body[k] ^= 0x33
+			}
+			appFree(s, m)
 			return []interface{}{"r", "ok", "tag", tag, "hl", hl, "from", from, "hout", hout}
 		})
 	case "inj":
@@ -309,6 +311,7 @@ func (c *rawScn) step(st string) {
 func runRaw(t *testing.T, cfg rawCfg, seed int64) (sim.Result, rec.Ev) {
 	eff := rec.Ev{}
 	res := sim.Run(t, 10*time.Second, func(s *sim.S) {
+		defer withLedger(s.Rec)()
 		c := &rawScn{s: s, cfg: cfg, pipes: map[string]*vt.Pipe{}, id2p: map[uint32]string{}, p2id: map[string]uint32{},
 			rng: rand.New(rand.NewSource(seed))}
 		s.Net.Decode = rawDecode
